@@ -105,6 +105,12 @@ func catching(f func() Val) (out Val) {
 	return f()
 }
 
+// quietly runs f and ignores a panic (used for auxiliary calls only).
+func quietly(f func()) {
+	defer func() { recover() }()
+	f()
+}
+
 func runGlobal(a0, b0 []byte, sm align.SubstitutionMatrix, frozen bool) Val {
 	a, b := slices.Clone(a0), slices.Clone(b0)
 	var before align.SubstitutionMatrix
@@ -117,6 +123,15 @@ func runGlobal(a0, b0 []byte, sm align.SubstitutionMatrix, frozen bool) Val {
 	steps, score := align.Global(a, b, sm)
 	if !bytes.Equal(a, a0) || !bytes.Equal(b, b0) {
 		return L(I(3), S("input sequence modified"))
+	}
+	// a returned alignment belongs to the caller: later calls (same pair swapped, a
+	// shorter pair, the other function) must not change it
+	keep := slices.Clone(steps)
+	quietly(func() { align.Global(b, a, sm) }) // the matrix need not cover the swapped pair
+	quietly(func() { align.Global(a[:len(a)/2], b[:len(b)/2], sm) })
+	quietly(func() { align.Local(b, a, sm) })
+	if !slices.Equal(steps, keep) {
+		return L(I(3), S("the steps returned by Global were changed by later calls"))
 	}
 	if !frozen && !sameMatrix(before, sm) {
 		return L(I(3), S("matrix modified"))
@@ -140,6 +155,13 @@ func runLocal(a0, b0 []byte, sm align.SubstitutionMatrix, frozen bool) Val {
 	steps, ai, bi, score := align.Local(a, b, sm)
 	if !bytes.Equal(a, a0) || !bytes.Equal(b, b0) {
 		return L(I(3), S("input sequence modified"))
+	}
+	keep := slices.Clone(steps)
+	quietly(func() { align.Local(b, a, sm) })
+	quietly(func() { align.Local(a[:len(a)/2], b[:len(b)/2], sm) })
+	quietly(func() { align.Global(b, a, sm) })
+	if !slices.Equal(steps, keep) {
+		return L(I(3), S("the steps returned by Local were changed by later calls"))
 	}
 	if !frozen && !sameMatrix(before, sm) {
 		return L(I(3), S("matrix modified"))
